@@ -129,6 +129,57 @@ impl<'a> Session<'a> {
     }
 }
 
+impl<'a> Session<'a> {
+    /// n repetitions of a call pattern.  After `head` repetitions written out in full, one more is
+    /// written after a {"op":"mark"} event and every following repetition whose events are identical to
+    /// it, line for line, is counted in one {"op":"rep","n":k} event (the trace specification checks
+    /// that the marked repetition returned it to the state at the mark, so that the k repetitions are
+    /// behaviours it has already accepted).  The first repetition that differs is written in full.
+    pub fn repeat(&mut self, n: usize, head: usize, mut f: impl FnMut(&mut Self)) {
+        let mut i = 0;
+        while i < n.min(head) {
+            f(self);
+            i += 1;
+        }
+        if i >= n || !self.alive {
+            return;
+        }
+        self.out.line("{\"op\":\"mark\"}");
+        self.out.begin_capture();
+        f(self);
+        let pat = self.out.end_capture();
+        self.out.emit_all(&pat);
+        i += 1;
+        self.repeat_like(&pat, n - i, f);
+    }
+    fn repeat_like(&mut self, pat: &[String], n: usize, mut f: impl FnMut(&mut Self)) {
+        let mut same = 0u64;
+        let mut i = 0;
+        while i < n {
+            self.out.begin_capture();
+            f(self);
+            let cur = self.out.end_capture();
+            i += 1;
+            if cur == pat {
+                same += 1;
+            } else {
+                if same > 0 {
+                    self.out.line(&format!("{{\"op\":\"rep\",\"n\":{}}}", same));
+                    same = 0;
+                }
+                self.out.emit_all(&cur);
+                while i < n {
+                    f(self);
+                    i += 1;
+                }
+            }
+        }
+        if same > 0 {
+            self.out.line(&format!("{{\"op\":\"rep\",\"n\":{}}}", same));
+        }
+    }
+}
+
 /// sender with running status
 struct Tx {
     last_status: u8,
@@ -164,6 +215,127 @@ pub fn drive_kbd(s: &mut Session, rng: &mut Rng, runs: usize, events: usize) {
 /// more than 32 keys down at once (beyond the premise of C04; edges, controllers still apply)
 pub fn drive_overflow(s: &mut Session, rng: &mut Rng, runs: usize) {
     drive_kbd_cap(s, rng, runs, 200, 45)
+}
+
+/// scripted histories around the limits of the held-note list and of any counter an implementation
+/// might keep: one key struck more often than the list is long, more keys than it holds released one by
+/// one, a list filled to the brim with repeats, and more than 2^16 note-ons on one receiver followed by
+/// overlapping keys (run-length compressed, see Session::repeat)
+pub fn drive_scripts(s: &mut Session, rng: &mut Rng, thorough: bool) {
+    let prios = ["last", "high", "low"];
+    // (a) one key struck 40 times without a release, in both modes, polled at different rhythms
+    for variant in 0..4 {
+        let ch = rng.below(16) as u8;
+        s.start(ch, "kbd");
+        s.retrig(variant % 2 == 1);
+        s.prio(prios[variant % 3]);
+        let k = rng.below(128) as u8;
+        for i in 0..40 {
+            s.bytes(&[0x90 | ch, k, 1 + rng.below(127) as u8]);
+            if variant < 2 || i % 7 == 0 {
+                s.poll_r();
+                s.poll_f();
+            }
+        }
+        s.poll_r();
+        s.bytes(&[0x80 | ch, k, 0]);
+        s.poll_f();
+        s.poll_r();
+        s.bytes(&[0x90 | ch, k, 5]);
+        s.poll_r();
+        s.poll_f();
+        s.bytes(&[0x90 | ch, (k + 1) % 128, 5]);
+        s.poll_r();
+    }
+    // (b) 33..45 distinct keys down, released one by one in random order, then a new key
+    for variant in 0..(if thorough { 12 } else { 4 }) {
+        let ch = rng.below(16) as u8;
+        s.start(ch, "kbd");
+        s.retrig(variant % 2 == 1);
+        s.prio(prios[variant % 3]);
+        let n = 33 + rng.below(13) as usize;
+        let mut keys: Vec<u8> = (0..128u8).collect();
+        rng.shuffle(&mut keys);
+        keys.truncate(n);
+        for &k in &keys {
+            s.bytes(&[0x90 | ch, k, 64]);
+        }
+        s.poll_r();
+        s.poll_f();
+        rng.shuffle(&mut keys);
+        for &k in &keys {
+            if rng.chance(1, 2) {
+                s.bytes(&[0x80 | ch, k, 0]);
+            } else {
+                s.bytes(&[0x90 | ch, k, 0]);
+            }
+        }
+        s.poll_f();
+        s.poll_r();
+        for &k in keys.iter().take(3) {
+            s.bytes(&[0x90 | ch, k, 33]);
+            s.poll_r();
+            s.poll_f();
+            s.bytes(&[0x80 | ch, k, 0]);
+            s.poll_r();
+            s.poll_f();
+        }
+    }
+    // (c) exactly 32 outstanding note-ons, some keys struck twice with other keys in between
+    for variant in 0..(if thorough { 12 } else { 4 }) {
+        let ch = rng.below(16) as u8;
+        s.start(ch, "kbd");
+        s.prio(prios[variant % 3]);
+        let pool: Vec<u8> = (0..(8 + rng.below(20))).map(|_| rng.below(128) as u8).collect();
+        let mut seq: Vec<u8> = Vec::new();
+        for _ in 0..32 {
+            let k = *rng.pick(&pool);
+            seq.push(k);
+            s.bytes(&[0x90 | ch, k, 1 + rng.below(127) as u8]);
+        }
+        // release in random order, observing the sounding note after every release
+        let mut order = pool.clone();
+        rng.shuffle(&mut order);
+        for &k in &order {
+            s.bytes(&[0x80 | ch, k, 0]);
+            s.poll_f();
+        }
+    }
+    // (d) more than 2^16 note-ons on one receiver, then overlapping keys across the 2^16th
+    for variant in 0..2 {
+        let ch = rng.below(16) as u8;
+        s.start(ch, "kbd");
+        s.prio("last");
+        s.retrig(variant == 1);
+        let k0 = rng.below(128) as u8;
+        let polls = variant == 0;
+        s.repeat(65_480, 24, |s| {
+            s.bytes(&[0x90 | ch, k0, 100]);
+            if polls {
+                s.poll_r();
+            }
+            s.bytes(&[0x80 | ch, k0, 0]);
+            if polls {
+                s.poll_f();
+            }
+        });
+        // legato: every key is pressed before the previous one is released, so that every two
+        // consecutive note-ons (whatever their number) are outstanding together once
+        let mut prev = 10u8;
+        s.bytes(&[0x90 | ch, prev, 90]);
+        for i in 0..140u32 {
+            // alternately below and above the previous key (the most recent one is neither the
+            // highest nor the lowest all the time)
+            let next = if i % 2 == 0 { 100 - (i % 37) as u8 } else { 12 + (i % 41) as u8 };
+            s.bytes(&[0x90 | ch, next, 91]);
+            s.poll_r();
+            s.bytes(&[0x80 | ch, prev, 0]);
+            s.poll_f();
+            prev = next;
+        }
+        s.bytes(&[0x80 | ch, prev, 0]);
+        s.poll_f();
+    }
 }
 
 fn drive_kbd_cap(s: &mut Session, rng: &mut Rng, runs: usize, events: usize, cap: usize) {
@@ -552,19 +724,46 @@ pub fn drive_ctl(s: &mut Session, rng: &mut Rng, full: bool) {
 }
 
 /// re-execute the operations of a recorded trace on the current build (replay of a violation)
+fn rerun_one(s: &mut Session, e: &serde_json::Value) {
+    match e["op"].as_str().unwrap_or("") {
+        "new" => s.start(e["c"].as_u64().unwrap() as u8, e["drv"].as_str().unwrap_or("kbd")),
+        "b" => s.byte(e["b"].as_u64().unwrap() as u8),
+        "pr" => s.poll_r(),
+        "pf" => s.poll_f(),
+        "rt" => s.retrig(e["m"].as_bool().unwrap()),
+        "pri" => s.prio(e["p"].as_str().unwrap()),
+        _ => {}
+    }
+}
+
 pub fn rerun(lines: &[serde_json::Value], out: &mut Out) {
     let mut s = Session::new(out);
-    for e in lines {
+    let mut mark: Option<usize> = None;
+    for (i, e) in lines.iter().enumerate() {
         match e["op"].as_str().unwrap_or("") {
-            "new" => s.start(e["c"].as_u64().unwrap() as u8, e["drv"].as_str().unwrap_or("kbd")),
-            "b" => s.byte(e["b"].as_u64().unwrap() as u8),
-            "pr" => s.poll_r(),
-            "pf" => s.poll_f(),
-            "rt" => s.retrig(e["m"].as_bool().unwrap()),
-            "pri" => s.prio(e["p"].as_str().unwrap()),
-            _ => {}
+            "mark" => {
+                s.out.line("{\"op\":\"mark\"}");
+                s.out.begin_capture();
+                mark = Some(i);
+            }
+            "rep" => {
+                let pat_out = s.out.end_capture();
+                s.out.emit_all(&pat_out);
+                if let Some(m) = mark.take() {
+                    let pat: Vec<&serde_json::Value> = lines[m + 1..i].iter().collect();
+                    let n = e["n"].as_u64().unwrap() as usize;
+                    s.repeat_like(&pat_out, n, |s| {
+                        for x in &pat {
+                            rerun_one(s, x);
+                        }
+                    });
+                }
+            }
+            _ => rerun_one(&mut s, e),
         }
     }
+    let rest = s.out.end_capture();
+    s.out.emit_all(&rest);
 }
 
 pub fn record(driver: &str, seed: u64, thorough: bool, out: &mut Out) -> Stats {
@@ -579,11 +778,13 @@ pub fn record(driver: &str, seed: u64, thorough: bool, out: &mut Out) -> Stats {
             if thorough {
                 drive_kbd(&mut s, &mut rng, 900, 400);
                 drive_kbd(&mut s, &mut rng, 2, 150_000);
+                drive_scripts(&mut s, &mut rng, true);
                 drive_overflow(&mut s, &mut rng, 100)
             } else {
                 drive_kbd(&mut s, &mut rng, 120, 300);
                 // one long history without a reset (more than 2^16 bytes)
                 drive_kbd(&mut s, &mut rng, 1, 30_000);
+                drive_scripts(&mut s, &mut rng, false);
                 drive_overflow(&mut s, &mut rng, 12)
             }
         }
